@@ -80,7 +80,7 @@ def setup(ctx):
 
     def kf_d16b(f):
         bins = list(P.TkCfg(**f["input"]["cfg"]).tk().velocity_bins)
-        return not good_bins(bins) and f["clause"] in ("bijection", "size", "inverse", "closed")
+        return d16_bins(bins) and f["clause"] in ("bijection", "size", "inverse", "closed")
     ctx.kf_predicates["D16b"] = kf_d16b
 
 
